@@ -19,6 +19,6 @@ void ObjectHeaderBase_read(struct ObjectHeaderBase *self, struct AbstractFile *i
     __CPROVER_assume(is->g >= g0 && is->g <= is->fileSize && is->p <= is->g);
     __CPROVER_assume(is->rdstate == IOS_goodbit || is->g == is->fileSize);    /* a cut-short header read has consumed the stream to its declared end (C09) */
     if (is->rdstate != IOS_goodbit) is->hdr_end = 1;
-    else { extern int64_t g_hdr_skip; __CPROVER_assume(is->g >= g0 + 16); g_hdr_skip = is->g - g0 - 16; is->asked = 16; }   /* good: filler + the 16-byte base header (C09) */    /* ghost: the header read was cut short */
+    else { extern int64_t g_hdr_skip; __CPROVER_assume(is->g >= g0 + 16); g_hdr_skip = is->g - g0 - 16; is->asked = 16; is->p = is->g; /* the stream invariant p <= g, re-established by every later operation, now carries 'at least the base header was consumed' */ }   /* good: filler + the 16-byte base header (C09) */    /* ghost: the header read was cut short */
 }
 #endif
